@@ -210,7 +210,10 @@ def xmatch(
     return res[0]
 
 
-_vect_get_type_id = np.vectorize(_get_type_id, otypes=[int])
+def _vect_get_type_id(*args):
+    # Not a module-level `np.vectorize`: once called it caches a ufunc that
+    # cannot be pickled (dill then fails on every model of the process).
+    return np.vectorize(_get_type_id, otypes=[int])(*args)
 
 
 def args_parser_match_array(val, arr, match_type=1):
